@@ -981,6 +981,10 @@ class WorkerPool:
             if keep_alive:
                 self._worker_comms.insert_non_lethal_poison_pill()
             else:
+                # Workers that showed a progress bar wait for the bar to complete before they exit. Outside of a map call
+                # (i.e., when joining kept-alive workers) there's no progress bar handler that can tell them so
+                if self._progress_bar_handler is None:
+                    self._worker_comms.signal_progress_bar_complete()
                 self._worker_comms.insert_poison_pill()
 
             # Wait until all (non-lethal) poison pills have been consumed. When a worker's lifetime has been reached
